@@ -1160,6 +1160,9 @@ where
             return Err(Error::InvalidValue);
         }
 
+        // Keys and values carry their own constructors, also when the map is an array element
+        self.elem_format_code = None;
+
         visitor.visit_map(MapAccess::new(self, size, count))
     }
 
